@@ -60,6 +60,7 @@ Section Shapes.
     | Some x, Some y, Some z => Some (x, y, z)
     | _, _, _ => None
     end.
+  (* _maybe_flatten(vertices, faces, False) = vertices[faces]: one triangle of three vertices per face row *)
   Definition flatten (vs : list (vec3 F)) (fs : list face) : list (option triangle) := map (tri_at vs) fs.
   Fixpoint somes {A} (l : list (option A)) : list A :=
     match l with [] => [] | Some a :: r => a :: somes r | None :: r => somes r end.
